@@ -111,3 +111,14 @@ def register(claim, na):
           "processes entering the same experiment: after every run jobs/ must equal the run's plan with resolving links and no jobs.bak (normal end), "
           "or jobs + jobs.bak must still contain the last completed plan (abort/kill), and the real `orphans` command must list none of them.",
           W_NOTE, "DESIGN.md 3/C16")
+
+    claim("C10", "K", "fault_enumeration",
+          "explicit-state exhaustive crash-point enumeration: the real generated job script is launched from every reachable job-directory state with each signal at every traced line",
+          "A state is the canonical job directory (success marker, failure marker content, interrupted body). From every state the real TaskRunner is "
+          "run (forked child of a worker that imported experimaestro; runpy + atexit as a fresh interpreter) with no signal and with SIGKILL, SIGTERM, "
+          "SIGINT (thorough: SIGHUP) delivered at every line event of run.py, the generated script and the task body; successor states are explored "
+          "breadth-first until no new state appears; three task variants. Checked on every transition: success marker only after a completed body, "
+          "lock free after death, relaunch runs the body iff no success marker, TERM/INT inside the body leave a failure marker and no success marker, "
+          "a run that ended on its own leaves no pid file.",
+          "Crash points are Python line events (a signal between two lines behaves as at the next line). The pid file is written by the harness before "
+          "every launch (the scheduler writes it right after the spawn). Fork-server launch instead of a fresh interpreter.", "DESIGN.md 2.3, 3/C10")
